@@ -221,7 +221,7 @@ def main():
         "engines": [{"name": "tlc", "path": "/usr/local/bin/tlc", "serves_properties": sorted(CHECKS),
                      "kind_free_text": "TLC 1.8 explicit-state model checker on the TLA+ modules under /verif/spec; Python harness "
                                        "under /verif/harness binds them to the real code"},
-                    {"name": "apalache", "path": "/usr/local/bin/apalache-mc", "serves_properties": ["C02", "C06", "C07", "C09", "C10", "C12", "C17", "C18", "C20"],
+                    {"name": "apalache", "path": "/usr/local/bin/apalache-mc", "serves_properties": ["C02", "C06", "C07", "C08", "C09", "C10", "C12", "C17", "C18", "C20"],
                      "kind_free_text": "Apalache 0.58 symbolic model checker (Z3) on /verif/spec/Apa_*.tla: the algebraic clauses for "
                                        "every argument (Init => Inv over unconstrained integers); an addition to the TLC instances "
                                        "of the same clauses, inconclusive runs are recorded and tolerated"}],
